@@ -290,6 +290,159 @@ fn canon(v: &Value, out: &mut String) {
     }
 }
 
+/// concrete value <-> JSON (used by replays, minimisation and samples)
+fn to_cv(v: &Value) -> J {
+    match v {
+        Value::Extant => json!({"x": 0}),
+        Value::Int32Value(n) => json!({"i32": n}),
+        Value::Int64Value(n) => json!({"i64": n.to_string()}),
+        Value::UInt32Value(n) => json!({"u32": n}),
+        Value::UInt64Value(n) => json!({"u64": n.to_string()}),
+        Value::Float64Value(x) => json!({"f64": format!("{:016x}", x.to_bits())}),
+        Value::BooleanValue(b) => json!({"b": b}),
+        Value::BigInt(n) => json!({"bi": n.to_string()}),
+        Value::BigUint(n) => json!({"bu": n.to_string()}),
+        Value::Text(t) => json!({"t": t.as_str()}),
+        Value::Data(b) => json!({"d": b.as_ref().iter().map(|x| format!("{:02x}", x)).collect::<String>()}),
+        Value::Record(attrs, items) => {
+            let a: Vec<J> = attrs.iter().map(|a| json!([a.name.as_str(), to_cv(&a.value)])).collect();
+            let i: Vec<J> = items
+                .iter()
+                .map(|it| match it {
+                    Item::ValueItem(v) => to_cv(v),
+                    Item::Slot(k, v) => json!({"s": [to_cv(k), to_cv(v)]}),
+                })
+                .collect();
+            json!({"r": [a, i]})
+        }
+    }
+}
+
+fn from_cv(j: &J) -> Value {
+    let o = j.as_object().expect("HARNESS: cv object");
+    let (k, v) = o.iter().next().expect("HARNESS: cv empty");
+    match k.as_str() {
+        "x" => Value::Extant,
+        "i32" => Value::Int32Value(v.as_i64().unwrap() as i32),
+        "i64" => Value::Int64Value(v.as_str().unwrap().parse().unwrap()),
+        "u32" => Value::UInt32Value(v.as_u64().unwrap() as u32),
+        "u64" => Value::UInt64Value(v.as_str().unwrap().parse().unwrap()),
+        "f64" => Value::Float64Value(f64::from_bits(u64::from_str_radix(v.as_str().unwrap(), 16).unwrap())),
+        "b" => Value::BooleanValue(v.as_bool().unwrap()),
+        "bi" => Value::BigInt(v.as_str().unwrap().parse().unwrap()),
+        "bu" => Value::BigUint(v.as_str().unwrap().parse().unwrap()),
+        "t" => Value::Text(Text::new(v.as_str().unwrap())),
+        "d" => Value::Data(Blob::from_vec(hex_bytes(v.as_str().unwrap()))),
+        "r" => {
+            let attrs = v[0].as_array().unwrap().iter().map(|a| Attr { name: Text::new(a[0].as_str().unwrap()), value: from_cv(&a[1]) }).collect();
+            let items = v[1]
+                .as_array()
+                .unwrap()
+                .iter()
+                .map(|it| {
+                    if let Some(s) = it.get("s") {
+                        Item::Slot(from_cv(&s[0]), from_cv(&s[1]))
+                    } else {
+                        Item::ValueItem(from_cv(it))
+                    }
+                })
+                .collect();
+            Value::Record(attrs, items)
+        }
+        other => panic!("HARNESS: unknown cv tag {}", other),
+    }
+}
+
+/// Reference rendering, independent of the printers under test: fully explicit Recon (every record
+/// braced, every text quoted, every attribute body parenthesised).  It is only used as a *witness*:
+/// if the real parser maps ref_text(v) to exactly v, then v is a value the parser can produce.
+fn ref_text(v: &Value, out: &mut String) {
+    match v {
+        Value::Extant => {}
+        Value::Int32Value(n) => write!(out, "{}", n).unwrap(),
+        Value::Int64Value(n) => write!(out, "{}", n).unwrap(),
+        Value::UInt32Value(n) => write!(out, "{}", n).unwrap(),
+        Value::UInt64Value(n) => write!(out, "{}", n).unwrap(),
+        Value::Float64Value(x) => {
+            let s = format!("{:?}", x);
+            out.push_str(&s);
+        }
+        Value::BooleanValue(b) => write!(out, "{}", b).unwrap(),
+        Value::BigInt(n) => write!(out, "{}", n).unwrap(),
+        Value::BigUint(n) => write!(out, "{}", n).unwrap(),
+        Value::Text(t) => ref_string(t.as_str(), out),
+        Value::Data(b) => {
+            out.push('%');
+            b64(b.as_ref(), out);
+        }
+        Value::Record(attrs, items) => {
+            for a in attrs {
+                out.push('@');
+                ref_string(a.name.as_str(), out);
+                match &a.value {
+                    Value::Extant => {}
+                    Value::Record(at, its) if at.is_empty() && (its.len() >= 2 || matches!(its.as_slice(), [Item::Slot(_, _)])) => {
+                        out.push('(');
+                        ref_items(its, out);
+                        out.push(')');
+                    }
+                    other => {
+                        out.push('(');
+                        ref_text(other, out);
+                        out.push(')');
+                    }
+                }
+            }
+            out.push('{');
+            ref_items(items, out);
+            out.push('}');
+        }
+    }
+}
+
+fn b64(data: &[u8], out: &mut String) {
+    const A: &[u8; 64] = b"ABCDEFGHIJKLMNOPQRSTUVWXYZabcdefghijklmnopqrstuvwxyz0123456789+/";
+    for ch in data.chunks(3) {
+        let n = (ch[0] as u32) << 16 | (*ch.get(1).unwrap_or(&0) as u32) << 8 | *ch.get(2).unwrap_or(&0) as u32;
+        out.push(A[(n >> 18) as usize & 63] as char);
+        out.push(A[(n >> 12) as usize & 63] as char);
+        out.push(if ch.len() > 1 { A[(n >> 6) as usize & 63] as char } else { '=' });
+        out.push(if ch.len() > 2 { A[n as usize & 63] as char } else { '=' });
+    }
+}
+
+fn ref_items(items: &[Item], out: &mut String) {
+    for (i, it) in items.iter().enumerate() {
+        if i > 0 {
+            out.push(',');
+        }
+        match it {
+            Item::ValueItem(v) => ref_text(v, out),
+            Item::Slot(k, v) => {
+                ref_text(k, out);
+                out.push(':');
+                ref_text(v, out);
+            }
+        }
+    }
+}
+
+fn ref_string(s: &str, out: &mut String) {
+    out.push('"');
+    for c in s.chars() {
+        match c {
+            '"' => out.push_str("\\\""),
+            '\\' => out.push_str("\\\\"),
+            '\n' => out.push_str("\\n"),
+            '\r' => out.push_str("\\r"),
+            '\t' => out.push_str("\\t"),
+            c if (c as u32) < 0x20 => write!(out, "\\u{:04x}", c as u32).unwrap(),
+            c => out.push(c),
+        }
+    }
+    out.push('"');
+}
+
 fn canon_s(v: &Value) -> String {
     let mut s = String::new();
     canon(v, &mut s);
@@ -699,6 +852,9 @@ fn value_row(v: &Value, spec: &J, with_text: bool) -> J {
             }
             o["again"] = J::Array(again);
             o["norm_odd_attr"] = json!(f2.odd_attr_name);
+            if with_text {
+                o["norm_cv"] = to_cv(w);
+            }
             o["norm_nonfinite"] = json!(f2.nonfinite);
         }
         pr.push(o);
@@ -708,8 +864,18 @@ fn value_row(v: &Value, spec: &J, with_text: bool) -> J {
         "k": "value", "vid": vid, "nonfinite": f.nonfinite, "odd_attr": f.odd_attr_name,
         "depth": f.depth, "nodes": f.nodes, "records": f.records, "pr": pr,
     });
+    {
+        let mut rt = String::new();
+        ref_text(v, &mut rt);
+        let produced = matches!(one_shot(&rt), Ok(w) if canon_s(&w) == cs);
+        row["produced"] = json!(produced);
+        if with_text {
+            row["ref"] = json!(rt);
+        }
+    }
     if with_text {
         row["canon"] = json!(cs);
+        row["cv"] = to_cv(v);
     }
     if !spec.is_null() {
         // chunk independence on the compact text (what the wire carries) and on the pretty text (new lines)
@@ -1393,6 +1559,10 @@ fn run_case(case: &J) -> J {
         "value" => {
             let mut c = Concretiser { salt, counter: 0 };
             let v = c.value(&case["v"]);
+            value_row(&v, spec, wt)
+        }
+        "cval" => {
+            let v = from_cv(&case["cv"]);
             value_row(&v, spec, wt)
         }
         "typed" => {
